@@ -8,12 +8,14 @@ import (
 	"encoding/hex"
 	"fmt"
 	"math/rand"
+	"net"
 	"os"
 	"os/exec"
 	"path/filepath"
 	"regexp"
 	"strings"
 	"sync"
+	"sync/atomic"
 	"time"
 
 	"verif/host"
@@ -136,6 +138,7 @@ func (b *c04Batch) runCase(c hcase) bool {
 		streams = append(streams, s)
 	}
 	var wg sync.WaitGroup
+	var stuck atomic.Int32 // streams whose connection was neither answered to the end nor closed
 	for _, s := range streams {
 		wg.Add(1)
 		go func(s []byte) {
@@ -147,14 +150,45 @@ func (b *c04Batch) runCase(c hcase) bool {
 			defer cl.Close()
 			done := make(chan struct{})
 			go func() { cl.SendRaw(s); cl.CloseWrite(); close(done) }()
-			// drain whatever comes (bounded) until close or silence
+			// drain whatever comes (bounded) until the server closes. The client has half-closed, so
+			// every handler that terminates ends in a close; silence is tolerated while the server is
+			// still doing file-system work for somebody (ops counter moving) and for 15 s without any,
+			// at most 90 s in all: then the connection counts as neither answered nor closed.
 			total := 0
 			buf := make([]byte, 1<<16)
+			lastOps, lastChange, begin := -1, time.Now(), time.Now()
+		drain:
 			for total < 256<<20 {
 				cl.C.SetReadDeadline(time.Now().Add(3 * time.Second))
 				n, err := cl.C.Read(buf)
 				total += n
-				if err != nil {
+				if n > 0 {
+					lastChange = time.Now()
+				}
+				if err == nil {
+					continue
+				}
+				if ne, ok := err.(net.Error); !ok || !ne.Timeout() {
+					break // closed / reset
+				}
+				select {
+				case <-done:
+				default:
+					// our own send is still in progress (the server is not reading: its business)
+					if time.Since(begin) > 90*time.Second {
+						stuck.Add(1)
+						break drain
+					}
+					continue
+				}
+				if rep, e2 := b.p.Do(worker.Cmd{Cmd: "report"}); e2 == nil && rep.Report != nil && rep.Report.Ops != lastOps {
+					lastOps, lastChange = rep.Report.Ops, time.Now()
+				}
+				if !b.p.Alive() {
+					break
+				}
+				if time.Since(lastChange) > 15*time.Second || time.Since(begin) > 90*time.Second {
+					stuck.Add(1)
 					break
 				}
 			}
@@ -172,6 +206,12 @@ func (b *c04Batch) runCase(c hcase) bool {
 		wit["exit"] = b.p.ExitString()
 		wit["trace"] = tr
 		run.Violate("process-died", c.Family+": "+crashClass(tr), fmt.Sprintf("[%s/%s] the server process died (%s): %s", c.Family, c.Name, b.p.ExitString(), firstLines(tr, 12)), wit)
+		b.stop()
+		b.start()
+		return false
+	}
+	if stuck.Load() > 0 {
+		run.Violate("neither-answered-nor-closed", c.Family, fmt.Sprintf("[%s/%s] after the client had sent everything and half-closed, the server neither answered to the end nor closed the connection (no byte and no file-system activity for 15 s, or still busy after 90 s)", c.Family, c.Name), wit)
 		b.stop()
 		b.start()
 		return false
@@ -476,6 +516,27 @@ func c04Disk(e *Env, root string, r *rand.Rand) []hcase {
 		must(os.WriteFile(filepath.Join(hd, d, "PS3_GAME", "PARAM.SFO"), sfo, 0o644))
 		must(os.WriteFile(filepath.Join(hd, d, "EBOOT.BIN"), tree.Content(int64(i), 3000), 0o644))
 		cs = append(cs, hcase{Family: "sfo", Name: name, Reqs: []wire.Req{wire.P(wire.OpOpen, "/***PS3***/hd/"+d), wire.Read(4096, 0), wire.Crit(2048, 2048)}})
+	}
+	// huge declared counts backed by a file that is really that long (sparse): nothing hits EOF early
+	bigBase := makeSFO(map[string]string{"CATEGORY": "DG", "TITLE": "Some Game", "TITLE_ID": "BLES12345", "VERSION": "01.00"}, []string{"CATEGORY", "TITLE", "TITLE_ID", "VERSION"})
+	for bi, m := range []struct {
+		name string
+		off  int
+		val  uint32
+	}{{"titleid-datalen=0xffffffff,file=4GiB", 20 + 32 + 4, 0xffffffff}, {"titleid-datalen=0x7fffffff,file=4GiB", 20 + 32 + 4, 0x7fffffff}, {"count=0xffffffff,file=4GiB", 16, 0xffffffff}, {"count=0x0fffffff,file=4GiB", 16, 0x0fffffff}} {
+		d := fmt.Sprintf("sfobig%d", bi)
+		must(os.MkdirAll(filepath.Join(hd, d, "PS3_GAME"), 0o755))
+		b := bytes.Clone(bigBase)
+		if m.off == 16 {
+			// the field that is looked for is not there: the whole declared index table is walked
+			b = makeSFO(map[string]string{"CATEGORY": "DG", "TITLE": "Some Game", "VERSION": "01.00"}, []string{"CATEGORY", "TITLE", "VERSION"})
+		}
+		binary.LittleEndian.PutUint32(b[m.off:], m.val)
+		pth := filepath.Join(hd, d, "PS3_GAME", "PARAM.SFO")
+		must(os.WriteFile(pth, b, 0o644))
+		must(os.Truncate(pth, 4<<30+8192))
+		must(os.WriteFile(filepath.Join(hd, d, "EBOOT.BIN"), tree.Content(int64(bi), 3000), 0o644))
+		cs = append(cs, hcase{Family: "sfo", Name: m.name, Reqs: []wire.Req{wire.P(wire.OpOpen, "/***PS3***/hd/"+d), wire.Read(4096, 0), wire.Crit(2048, 2048)}})
 	}
 	// region tables and key files below hd/PS3ISO
 	pdir := filepath.Join(hd, "PS3ISO")
@@ -794,8 +855,82 @@ func C04(e *Env) {
 	run.Sample(trimCase(disk[0]))
 	run.Sample(trimCase(streams[0]))
 	run.Sample(trimCase(geometry[0]))
+	c04ManyClients(e, root)
 	c04CLI(e, root)
 	run.Assume("workers run under ulimit -v 8 GiB: stands in for a machine with less memory than this 62 GiB host; count-driven allocations that would exhaust such a machine show up as fatal out-of-memory crashes")
+}
+
+// c04ManyClients: "any number of clients". The real binary runs with a small descriptor limit
+// (RLIMIT_NOFILE) and more idle connections than that are opened while a victim keeps transferring:
+// accept(2) then fails with EMFILE for a while. The process must survive, the victim's transfer must
+// stay exact, and once the crowd has left a fresh connection must be served again.
+func c04ManyClients(e *Env, root string) {
+	run := e.Run
+	for _, lim := range []int{48, 90} {
+		p, err := host.SpawnBin("/bin/sh", []string{"-c", fmt.Sprintf("ulimit -n %d; exec \"$0\" \"$@\"", lim), e.Bin, "server", "--root=" + root, "--listen-addr=127.0.0.1:0"},
+			host.Opt{Dir: e.Dir("logs"), Tag: fmt.Sprintf("c04-nofile%d", lim)}, e.Scratch, true)
+		if err != nil {
+			run.Inconclusive(fmt.Sprintf("many-clients: server with ulimit -n %d did not start: %v", lim, err))
+			continue
+		}
+		addr := p.HostPort()
+		want, _ := os.ReadFile(filepath.Join(root, "big.bin"))
+		victim, verr := wire.Dial(addr, nil, e.Watchdog)
+		victimOK := func(stage string) bool {
+			if verr != nil {
+				return false
+			}
+			if err := victim.Send(wire.P(wire.OpOpen, "/big.bin")); err != nil {
+				return false
+			}
+			if b, st := victim.ReadN(16); st != wire.Full || len(b) != 16 {
+				return false
+			}
+			victim.Send(wire.Crit(uint32(len(want)), 0))
+			b, st := victim.ReadN(len(want))
+			return st == wire.Full && bytes.Equal(b, want)
+		}
+		okBefore := victimOK("before")
+		var crowd []net.Conn
+		for i := 0; i < lim+40; i++ {
+			c, err := net.DialTimeout("tcp", addr, 2*time.Second)
+			if err != nil {
+				break
+			}
+			crowd = append(crowd, c)
+		}
+		time.Sleep(300 * time.Millisecond)
+		okDuring := victimOK("during")
+		alive := p.Alive()
+		for _, c := range crowd {
+			c.Close()
+		}
+		run.Eval(1)
+		run.Sig("many idle clients, ulimit -n %d", lim)
+		run.Count("idle_connections_opened", int64(len(crowd)))
+		wit := map[string]any{"nofile_limit": lim, "idle_connections": len(crowd), "stderr_tail": tailStr(strings.Split(p.Stderr(), "\n"), 6)}
+		// after the crowd left: a fresh connection must be served (a few attempts: the accept loop may
+		// be backing off)
+		var perr error
+		for try := 0; try < 40; try++ {
+			if perr = host.Probe(addr); perr == nil || !p.Alive() {
+				break
+			}
+			time.Sleep(250 * time.Millisecond)
+		}
+		switch {
+		case !alive || !p.Alive():
+			run.Violate("process-died", "many-clients", fmt.Sprintf("with RLIMIT_NOFILE=%d, %d idle connections ended the server process (%s): %s", lim, len(crowd), p.ExitString(), firstLines(p.Stderr(), 3)), wit)
+		case perr != nil:
+			run.Violate("not-serving", "many-clients", fmt.Sprintf("with RLIMIT_NOFILE=%d, after %d idle connections came and went a fresh connection is not served: %v", lim, len(crowd), perr), wit)
+		case okBefore && !okDuring:
+			run.Violate("victim-disturbed", "many-clients", fmt.Sprintf("with RLIMIT_NOFILE=%d, an established connection's transfer failed while %d idle connections were open", lim, len(crowd)), wit)
+		}
+		if victim != nil {
+			victim.Close()
+		}
+		p.Stop()
+	}
 }
 
 // c04CLI gives hostile on-disk inputs to make-iso and decrypt: an error exit, never a crash.
